@@ -400,6 +400,13 @@ def run(ctx, res):
                 res.ob(bad == 0)
                 if bad != 0:
                     res.finding("got|skipped", "a section named .got is filtered out before it is relocated", witness(bad))
+    # a NAME of the property compared as a prefix (starts_with without the terminating NUL): other names that merely begin with it match too
+    for o_ in outs:
+        for e_ in o_.state.eff:
+            if e_[0] == "bytes-test" and e_[1] == "prefix" and e_[3] in (b'.got',):
+                res.ob(False)
+                res.finding("names|prefix-match|%s" % e_[3].decode(), "the name %r is matched as a PREFIX (starts_with without its terminating NUL): a section whose name merely begins with it "
+                            "(.got.plt, .got2 ...) is relocated as if it were the GOT" % e_[3].decode(), witness(o_.state.pc))
     for k, v in list(seg_seen.items()) + list(got_seen.items()):
         res.ob(bool(v))
         if not v:
